@@ -6,6 +6,7 @@ CONSTANTS
   MaxCalls = 1
   MaxExpire = 0
   Kinds = {"lookup"}
+  ZeroDuration = FALSE
   Faults = FALSE
 INVARIANTS TypeOK SizeBound
 PROPERTIES EveryCallReturns
